@@ -7,7 +7,7 @@
    parser vs `parse` evaluated in Coq on the real lexer's tokens). *)
 From Coq Require Import List ZArith Bool Arith.
 From YV Require Import Common.Corr Model.OpTable Model.Pratt Gen.OpTables.
-From YV Require Import Lemmas.PrattYield Lemmas.PrattWf Lemmas.PrattShape Lemmas.PrattUnique Lemmas.PrattUniqueFull Lemmas.OpTableInsert Lemmas.OpTableLevels.
+From YV Require Import Lemmas.PrattYield Lemmas.PrattWf Lemmas.PrattShape Lemmas.PrattUnique Lemmas.PrattUniqueFull Lemmas.OpTableInsert Lemmas.OpTableLevels Lemmas.PrattCall.
 Import ListNotations.
 Open Scope Z_scope.
 
@@ -92,6 +92,18 @@ Qed.
    [shaped] is not needed there (first delivery, kept) *)
 Theorem C02_unique_core : forall T t, core t -> wf T t -> parse T (yield t) = Some t.
 Proof. exact parse_unique_core. Qed.
+
+(* delegate calls (`value(args)`, factories created with allow_delegates): in the table the
+   model uses for such engines the call has a rank of its own below every operator of the
+   table - every pending prefix, suffix or binary rule is completed before the call applies
+   (`a + b (c)` is `(a + b)(c)`); C02_yield .. C02_unique_tree above hold for such tables too *)
+Theorem C02_call_binds_loosest : forall B o q,
+  pre (table_of_delegates B) o = Some q \/ suf (table_of_delegates B) o = Some q \/
+  bin (table_of_delegates B) o = Some q ->
+  exists c, callr (table_of_delegates B) = Some c /\ continues c (Some q) = false /\ continues c None = true.
+Proof.
+  exact (fun B o q H => ex_intro _ (call_rank B) (conj eq_refl (conj (call_reduces_all B o q H) eq_refl))).
+Qed.
 
 (* insert_operator, read on the groups of the list (group k from 0 gets level k+1):
    with an anchor, the groups before the first group holding the anchor and that group
@@ -178,7 +190,7 @@ Qed.
 Definition Tdef : table :=
   match build_table Spec.default_ops with
   | Some b => table_of b
-  | None => {| pre := fun _ => None; suf := fun _ => None; bin := fun _ => None |}
+  | None => {| pre := fun _ => None; suf := fun _ => None; bin := fun _ => None; callr := None |}
   end.
 
 Ltac parsed_wf := cbv zeta; match goal with |- ?P /\ _ => assert (H : P) by (vm_compute; reflexivity); split; [exact H | exact (parse_wf _ _ _ H)] end.
@@ -213,6 +225,20 @@ Example ex_calls :
   parse Tdef [TFunc [102]; TAtom 0; TComma; TComma; TAtom 1; TMap; TAtom 2; TRP; TOp Spec.dot;
               TFunc [109]; TAtom 3; TRP; TLB; TAtom 4; TComma; TAtom 5; TRB] = Some t /\ wf Tdef t.
 Proof. eexists. parsed_wf. Qed.
+
+(* with delegates: a + b (c)  is  (a + b)(c);  - a (b)[0]  is  ((- a)(b))[0] *)
+Definition Tdel : table :=
+  match build_table Spec.default_ops with
+  | Some b => table_of_delegates b
+  | None => {| pre := fun _ => None; suf := fun _ => None; bin := fun _ => None; callr := None |}
+  end.
+Example ex_delegate_calls :
+  parse Tdel [TAtom 0; TOp Spec.plus; TAtom 1; TLP; TAtom 2; TRP]
+    = Some (CallV (Bin Spec.plus (Atom 0) (Atom 1)) (AVal (Atom 2) ANil)) /\
+  parse Tdel [TOp Spec.minus; TAtom 0; TLP; TAtom 1; TRP; TLB; TAtom 2; TRB]
+    = Some (Index (CallV (Un Spec.minus (Atom 0)) (AVal (Atom 1) ANil)) (AVal (Atom 2) ANil)) /\
+  parse Tdef [TAtom 0; TOp Spec.plus; TAtom 1; TLP; TAtom 2; TRP] = None.
+Proof. repeat split; vm_compute; reflexivity. Qed.
 
 (* wf discriminates: the other bracketings of these texts do not obey the table *)
 Example ex_wrong_grouping_not_wf :
